@@ -166,7 +166,7 @@ def main():
                 "quick_cmd": f"./run_check.sh {pid} quick",
                 "thorough_cmd": f"./run_check.sh {pid} thorough",
                 "evidence_file": f"/verif/evidence/{pid}.json",
-                "replay_cmd_template": "cat {path}",
+                "replay_cmd_template": "./replay.sh {path}",
                 "engine": c["engine"],
                 "level_claimed": {"category": "model_checking", "text": c["text"], "design_ref": c["design_ref"]},
                 "level_note": c["note"],
